@@ -74,6 +74,17 @@ CLAIMED["C15"] = (
     "Get's read-locked fast path and write-locked slow path are verified as one sequential body; callbacks (f) are assumed not to touch the shard.",
     "contract-based deductive verification (lock-invariant reasoning, ghost closed-channel set + SMT)", "6/C15")
 
+CLAIMED["C22"] = (
+    "Proof about the callback FindAllBuildFiles hands to the directory walker (verified as a function literal under contract, for all entry "
+    "names, configurations and blacklists): it returns nil or SkipDir only; plz-out and hidden directories are always skipped; an entry is "
+    "skipped ONLY for a documented reason (output/hidden, off the requested prefix, experimental directory, or a blacklisted directory matched "
+    "as a whole path component — this obligation exposed the raw-prefix defect repaired by commit 3b218fb); every blacklisted entry is skipped; a "
+    "name is sent on the channel only if it is a non-directory BUILD file, and every such entry that is not skipped is sent. Kernel-only: the "
+    "walker itself and the goroutine/channel plumbing are outside the proof.",
+    COMMON_NOTE + "fs.Walk calls the callback on every entry under the root unless pruned (assumed); filepath.Base, Configuration.IsABuildFile and "
+    "cli.ContainsString are uninterpreted pure functions.",
+    "contract-based deductive verification (function-literal contract, send-site obligations + SMT)", "6/C22")
+
 NOT_APPLICABLE = {
     "C05": "liveness / whole-run exit status under all schedules: no per-call contract expresses it (safety fragment is under C04)",
     "C30": "OS process groups, signals and wall-clock bounds; goroutines and select are outside the sequential contract model",
